@@ -35,7 +35,10 @@ Canonical state of the search (what two histories must share to be merged):
 * the stack of entered mode managers; the end-of-run flag;
 * from the real object: the key sets of ``_record`` and ``_origin`` for x,y, and
   per frame the ordered sub-list of registered callables that are the user's
-  function objects themselves rather than a wrapper.
+  function objects themselves rather than a wrapper, and the frame each of the
+  four layer names currently resolves to (a behavioural fingerprint of the
+  named-layer lookup, independent of the data structure behind it: an index
+  table that lost or kept a stale entry makes a different state).
 
 Dropped, and why merged states have the same futures: (a) concrete function /
 fixture ids are renamed by first appearance - Context never inspects them and
@@ -91,7 +94,12 @@ RULE = ("E2: breadth-first search over ALL operation histories on a real behave.
         "inner raising cleanup / with a generator fixture / setting+deleting an attribute, sets an attribute} in every "
         "frame of 4 stack shapes, and every sequence of <= 3 of those kinds + execute_steps in the testrun / feature / "
         "rule / scenario scope of a real ModelRunner run (LIFO exactly-once log, error raised iff some cleanup raised, "
-        "first error, stack restored, owner status and verdict). Format-hostile text: 2..3 cleanups of one form in the "
+        "first error, stack restored, owner status and verdict). Duplicate layer names: a search over {push ANY layer name, "
+        "also an active one and 'testrun', <= 4 frames; pop; end; add_cleanup(fresh function) to the current frame or "
+        "layer=each of the 4 names} to length 6 (thorough 7), cross-checked without deduplication to length 4 (the model "
+        "resolves layer= to the innermost LIVE frame of that name); E3 registrations (<= 2) on 5 stack shapes with a "
+        "repeated name; real runs in which a step opens scoped_context_layer(<active name>) or runs another scenario as "
+        "sub-scenario and registers layer=<name> cleanups inside / after it. Format-hostile text: 2..3 cleanups of one form in the "
         "innermost frame of 4 stack shapes x every non-empty raising subset x exception message in {plain, '{}', '{0}', "
         "'{x}', '}', '{', '%s', '%d %(a)s', '100%', non-ASCII, a dict repr} x cleanup callable {def, __name__ with "
         "braces, __name__ with percent signs, functools.partial, callable object, lambda} x {default, custom} "
@@ -135,6 +143,10 @@ PROFILES = {
     # a narrow alphabet that can be driven one level deeper: one name, two cleanup functions,
     # current frame or layer="testrun", two fixture kinds
     "deep": (False, ("x",), "narrow", ("gen", "twoyield"), False),
+    # duplicate layer names: ANY layer name (also one that is already active, also "testrun") may be pushed,
+    # up to 4 frames; add_cleanup of a fresh plain function to the current frame or layer=<every name>.
+    # Reference model: the innermost live frame with that name.
+    "dup": (False, (), "dup", (), False),
 }
 
 
@@ -344,8 +356,14 @@ def enabled(m, profile):
         return []
     ops = []
     top = m.frames[-1]["layer"]
-    for l in NEXT_LAYERS[top]:
-        ops.append(("push", l))
+    dup = cleanups == "dup"
+    if dup:
+        if len(m.frames) < 4:
+            for l in NEST:
+                ops.append(("push", l))
+    else:
+        for l in NEXT_LAYERS[top]:
+            ops.append(("push", l))
     if len(m.frames) > 1:
         ops.append(("pop",))
     else:
@@ -374,8 +392,10 @@ def enabled(m, profile):
             while idx in used:
                 idx += 1
             cands += ["f%d" % idx, "g%d" % idx]
+        if dup:
+            cands = [c for c in cands if c not in have and c[0] == "f"]     # a fresh non-raising function
         for fid in cands:
-            for form in (0, 1):
+            for form in ((0,) if dup else (0, 1)):
                 for target in ((None, "testrun") if narrow else (None,) + NEST):
                     ops.append(("cl", fid, form, target))
     for kind in fixtures:
@@ -617,9 +637,22 @@ class Env(object):
                             ren[fid] = "%s%d" % (fid[0], len(ren))
                         ids.append(ren[fid])
                 raw.append((None, tuple(ids)))
+            # behavioural fingerprint of the named-layer lookup (whatever data structure is behind it):
+            # which frame, counted from the outermost, each layer name currently resolves to
+            stack = self.ctx._stack
+            select = getattr(self.ctx, "_select_stack_frame_by_layer", None)
+            lookup = []
+            for name in NEST:
+                try:
+                    frame = select(name)
+                    lookup.append([len(stack) - 1 - j for j, fr in enumerate(stack) if fr is frame][0])
+                except LookupError:
+                    lookup.append(None)
+                except Exception:       # pylint: disable=broad-except
+                    lookup.append("?")
             return (tuple(n for n in NAMES if n in rec),
                     tuple((n, getattr(org[n], "name", str(org[n]))) for n in NAMES if n in org),
-                    tuple(r[1] for r in raw))
+                    tuple(r[1] for r in raw), tuple(lookup))
         except Exception:           # pylint: disable=broad-except
             return ("?",)
 
@@ -1220,8 +1253,13 @@ def read_case(case):
 FORMS = ("plain", "args", "kwargs")
 
 
+DUP_SHAPES = (("testrun", "testrun"), ("testrun", "feature", "testrun"), ("testrun", "feature", "feature"),
+              ("testrun", "scenario", "rule", "scenario"), ("testrun", "feature", "scenario", "scenario"))
+ALL_SHAPES = SHAPES + DUP_SHAPES
+
+
 def reg_options(si):
-    shape = SHAPES[si]
+    shape = ALL_SHAPES[si]
     top = len(shape) - 1
     opts = []
     for form in FORMS + ("fx",):
@@ -1238,6 +1276,11 @@ def e3_cases(maxn, custom_upto):
         for si in range(len(SHAPES)):
             for regs in itertools.product(reg_options(si), repeat=n):
                 yield (si, regs, custom_upto)
+    # stack shapes in which a layer name is active twice: layer=<name> means the innermost live frame
+    for n in range(1, 3):
+        for si in range(len(SHAPES), len(ALL_SHAPES)):
+            for regs in itertools.product(reg_options(si), repeat=n):
+                yield (si, regs, 2)
 
 
 def fx_e3(context, log, raising, i):
@@ -1309,7 +1352,7 @@ def e3_case(case):
 def _e3_one(si, regs, mask, handler, mi=None, ni=None):
     from behave.fixture import use_fixture
     import functools
-    shape = SHAPES[si]
+    shape = ALL_SHAPES[si]
     env = Env(handler=False)
     ctx = env.ctx
     log, hlog = [], []
@@ -1353,6 +1396,8 @@ def _e3_one(si, regs, mask, handler, mi=None, ni=None):
             ctx.add_cleanup(f, i=i, **kw)
         else:
             use_fixture(fx_e3, ctx, log, raising, i)
+        if via == "layer":
+            fi = max(j for j in range(len(shape)) if shape[j] == shape[fi])     # innermost live frame of that name
         expected[fi].append(i)
     v, obs = [], []
     case = (si, regs, mask, handler)
@@ -2281,13 +2326,139 @@ def nested_exec_case(case):
 
 
 # =============================================================================
+# a layer name that is active twice in a real run: a step opens a nested scope with the name of
+# an active layer (scoped_context_layer), or runs another scenario as a sub-scenario
+# (scenario.run(runner)); layer=<name> must mean the innermost LIVE frame of that name, and
+# after the inner scope ended the outer one again
+# =============================================================================
+DUP_FEATURE = u'''Feature: D
+  Scenario: S1
+    Given nest
+    Then noop
+
+  Scenario: S2
+    Given noop
+'''
+
+
+def dup_run_cases():
+    for layer in NEST:
+        for when in ("inside", "after", "both"):
+            yield ("scoped", layer, when)
+    for layer in ("scenario", "feature", "testrun"):
+        yield ("sub-scenario", layer, "after")
+
+
+def dup_run_case(case):
+    """(how the second scope of that name comes about, layer name, when the cleanup is registered)"""
+    import logging
+    from behave import matchers
+    from behave.configuration import Configuration
+    from behave.step_registry import StepRegistry
+    from behave.parser import parse_feature
+    from behave.runner import ModelRunner, scoped_context_layer
+    from io import StringIO
+    how, layer, when = case
+    root = logging.getLogger()
+    saved = (root.level, list(root.handlers), sys.stdout, sys.stderr)
+    matchers.use_step_matcher("parse")
+    events = []
+
+    def cleanup(tag):
+        events.append(("cleanup", tag))
+
+    def register(context, tag):
+        try:
+            context.add_cleanup(cleanup, tag, layer=layer)
+            events.append(("registered", tag))
+        except LookupError:
+            events.append(("LookupError", tag))
+        except Exception as e:      # pylint: disable=broad-except
+            events.append((type(e).__name__, tag))
+
+    def nest(context):
+        if how == "scoped":
+            with scoped_context_layer(context, layer):
+                if when in ("inside", "both"):
+                    register(context, "inside")
+                events.append(("inner-scope-ends",))
+        else:
+            events.append(("sub-scenario-starts",))
+            context.feature.run_items[1].run(context._runner)
+            events.append(("sub-scenario-ended",))
+        if when in ("after", "both"):
+            register(context, "after")
+
+    def noop(context):
+        events.append(("noop",))
+
+    hooks = {"after_scenario": lambda context, scenario: events.append(("after_scenario", u"%s" % scenario.name)),
+             "after_feature": lambda context, feature: events.append(("after_feature",)),
+             "after_all": lambda context: events.append(("after_all",))}
+    with warnings.catch_warnings():
+        warnings.simplefilter("ignore")
+        try:
+            sys.stdout = StringIO()
+            cfg = Configuration("", load_config=False)
+            reg = StepRegistry()
+            if how == "sub-scenario":
+                # a scenario run from inside a step is only possible without output capture
+                # (the capture controller is not re-entrant; not a C13 matter)
+                cfg = Configuration("--no-capture --no-capture-stderr --no-logcapture", load_config=False)
+            reg.add_step_definition("step", u"nest", nest)
+            reg.add_step_definition("step", u"noop", noop)
+            feature = parse_feature(DUP_FEATURE, filename="d.feature")
+            runner = ModelRunner(cfg, [feature], step_registry=reg)
+            runner.hooks = hooks
+            runner.formatters = []
+            failed = runner.run()
+        finally:
+            sys.stdout, sys.stderr = saved[2], saved[3]
+            root.setLevel(saved[0])
+            root.handlers[:] = saved[1]
+    statuses = (feature.status.name,) + tuple(sc.status.name for sc in feature.run_items)
+    # ---- expected events (model: layer=<name> is the innermost live frame of that name)
+    live_outer = layer != "rule"            # this feature has no rule: outside the nested scope no "rule" layer is live
+    want = []
+    if how == "scoped":
+        if when in ("inside", "both"):
+            want.append(("registered", "inside"))
+        want.append(("inner-scope-ends",))
+        if when in ("inside", "both"):
+            want.append(("cleanup", "inside"))
+    else:
+        want += [("sub-scenario-starts",), ("noop",), ("after_scenario", u"S2"), ("sub-scenario-ended",)]
+    after = when in ("after", "both")
+    if after:
+        want.append(("registered", "after") if live_outer else ("LookupError", "after"))
+    ran_after = [("cleanup", "after")] if (after and live_outer) else []
+    want += [("noop",), ("after_scenario", u"S1")] + (ran_after if layer == "scenario" else [])
+    want += [("noop",), ("after_scenario", u"S2"), ("after_feature",)] + (ran_after if layer == "feature" else [])
+    want += [("after_all",)] + (ran_after if layer == "testrun" else [])
+    v = []
+    where = "real run: %s scope named %r inside scenario S1, cleanup registered with layer=%r %s" % (how, layer, layer, when)
+    if events != want:
+        got = [e for e in events if e[0] in ("registered", "LookupError") or e[0].endswith("Error")]
+        cls = "refused" if [e for e in got if e[0] != "registered"] != [e for e in want if e[0] == "LookupError"] \
+            else "ran-at-the-wrong-scope-end"
+        v.append(({"subcheck": "duplicate-layer-runs", "clause": "layer-lookup", "kind": cls,
+                   "inner_scope": "ended" if after else "live"},
+                  "%s: events %r, expected %r" % (where, events, want)))
+    elif failed or any(st != "passed" for st in statuses):
+        v.append(({"subcheck": "duplicate-layer-runs", "clause": "status"},
+                  "%s: failed=%r statuses %r" % (where, failed, statuses)))
+    return {"v": v, "dg": (tuple(events), failed, statuses), "nt": keydigest(("dup-run", case)),
+            "out": ("dup-run", how, when, bool(failed))}
+
+
+# =============================================================================
 # driver
 # =============================================================================
 def run(ctx):
     from behave.runner import Context   # noqa: F401  (fail early if behave is not importable)
     quick = ctx.quick
-    plan = [("full", 5)] if quick else [("full", 6), ("attrs", 7), ("deep", 7)]
-    nodedup = [("full", 3)] if quick else [("full", 4), ("attrs", 5)]
+    plan = [("full", 5), ("dup", 6)] if quick else [("full", 6), ("attrs", 7), ("deep", 7), ("dup", 7)]
+    nodedup = [("full", 3), ("dup", 4)] if quick else [("full", 4), ("attrs", 5), ("dup", 4)]
     bounds = {"bfs": {}, "no_dedup": {}}
     flags = set()
     all_states = set()
@@ -2327,6 +2498,7 @@ def run(ctx):
     ctx.sweep(reentrant_run_case, reentrant_run_cases(3), chunk=16, name="re-entrant cleanups in real runs: <= 3 per scope")
     bounds["reentrant_cleanups"] = {"kinds": list(RE_KINDS), "real_run_kinds": list(RE_RUN_KINDS),
                                     "per_layer": re_n, "per_scope_in_real_runs": 3, "orders": "all"}
+    ctx.sweep(dup_run_case, list(dup_run_cases()), chunk=1, name="a layer name active twice in a real run")
     # ---- nested execute_steps
     ctx.sweep(nested_exec_case, nested_exec_cases(), chunk=16, name="nested execute_steps: depth 1..3 x data kinds x outcome")
     bounds["nested_execute_steps"] = {"depth": 3, "data_kinds_per_level": list(DATA_KINDS),
